@@ -61,6 +61,19 @@ for _id, (_what, _mon) in L1_TEXTS.items():
             technique="Lean 4 simulation proof (monitor state vs machine state, induction over traces) + log-replay correspondence",
             design=f"§7 {_id}")
 
+CLAIMED["C18"] = dict(
+    text="Partly proof, partly runtime. Proved in Lean (Ivy.Props.C18): the resource ledger of a loop instance — for every history of init / kernel-timer "
+         "creation / timer-store growth and shrink / raw-event (un)registration / deinit, any number of cycles, everything acquired is released at deinit and the "
+         "books are exact in between. Use of freed object memory and poll-array indexing are covered by the C01/C02 theorems on the L1 machine. What the model cannot "
+         "exhibit (byte-level ownership) is carried by the correspondence runs: every scenario family under ASan/UBSan/LeakSanitizer on all four methods, "
+         "init-use-deinit cycles with the descriptor table and live heap compared across cycles and the live delta (epoll fd, timerfd) checked against the ledger "
+         "model, O_NONBLOCK/FD_CLOEXEC verified after every successful registration, thread churn under the deterministic scheduler. Level: proof for the ledger logic; "
+         "partial for memory safety (sanitizer-backed exploration).",
+    note="Trusted: Lean kernel; standard axioms; sanitizers and the harnesses; the ledger model's list of acquisitions (read off iv_init/iv_deinit and the poll methods); "
+         "memory safety at byte level is NOT proved — it is explored under sanitizers.",
+    technique="Lean 4 ledger invariant + sanitizer/ledger exploration through the replay harness",
+    design="§7 C18")
+
 NOT_YET = "check not built yet in this round; planned per DESIGN.md §7 (Lean model + theorems + correspondence)"
 
 checks = []
